@@ -57,8 +57,8 @@ def synth_args(name, fn, variant, rnd):
         if n == "self":
             continue
         if n in ("path", "dir_path"):
-            args.append(r.choice(["f.txt", "d", "d/g.txt", "new", "/", "d/sub", "f.txt", "d/g.txt", "new", "d/newdir",
-                                  "d/sub"]))
+            keys = ["f.txt", "d", "d/g.txt", "new", "/", "d/sub", "d/newdir"]
+            args.append(keys[variant % len(keys)])
         elif n == "src_path":
             args.append(pair[0])
         elif n == "dst_path":
@@ -72,7 +72,8 @@ def synth_args(name, fn, variant, rnd):
         elif n == "file":
             args.append(io.BytesIO(b"FILE"))
         elif n == "mode":
-            args.append(r.choice(["r", "w", "a", "r+", "x", "rb", "wb", "w", "wb"]))
+            modes = ["r", "w", "a", "r+", "x", "rb", "wb", "rw", "ra", "rx", "rwb", "w+", "a+b"]
+            args.append(modes[(variant * 5 + variant // 7) % len(modes)])
         elif n == "info":
             args.append({"details": {"modified": fsops.MT_BASE + 7 + variant}})
         elif n in ("namespaces",):
@@ -237,7 +238,7 @@ def sweep_readonly(label, make, methods, rnd, results, depth=0):
     for name in methods:
         if name in ("close",):
             continue
-        for variant in range(8):
+        for variant in range(14):
             ro, st = make()
             try:
                 fn = getattr(ro, name, None)
@@ -341,7 +342,7 @@ def mutating_methods(methods, rnd):
     for name in methods:
         if name == "close":
             continue
-        for variant in range(10):
+        for variant in range(14):
             st = Store("mem")
             try:
                 args = synth_args(name, getattr(FS, name), variant, rnd)
@@ -533,6 +534,30 @@ def closed_constructions():
             return m, st, ("multi", auto)
         return make
 
+    def failing_member(kind):
+        def make():
+            from fs.memoryfs import MemoryFS
+
+            class BadClose(MemoryFS):
+                _raised = False
+
+                def close(self):
+                    super(BadClose, self).close()
+                    if not self._raised:          # only the first close() fails (keeps __del__ quiet)
+                        self._raised = True
+                        raise OSError("close failed")
+            st = Store("mem")
+            if kind == "multi":
+                m = MultiFS(auto_close=True)
+                m.add_fs("bad", BadClose())
+                m.add_fs("w", st.fs, write=True)
+            else:
+                m = MountFS(auto_close=True)
+                m.mount("bad", BadClose())
+                m.mount("m", st.fs)
+            return m, st, ("failing-close", kind)
+        return make
+
     def subsub():
         st = Store("mem")
         return st.fs.opendir("d").opendir("sub"), st, None
@@ -544,7 +569,9 @@ def closed_constructions():
             ("WrapFS(MemoryFS)", wrap), ("WrapReadOnly(MemoryFS)", ro), ("WrapCachedDir(MemoryFS)", cached),
             ("MountFS(auto_close=True)", mount(True)), ("MountFS(auto_close=False)", mount(False)),
             ("MultiFS(auto_close=True)", multi(True)), ("MultiFS(auto_close=False)", multi(False)),
-            ("SubFS(SubFS(MemoryFS))", subsub), ("WrapFS(SubFS(MemoryFS))", wrap_sub)]
+            ("SubFS(SubFS(MemoryFS))", subsub), ("WrapFS(SubFS(MemoryFS))", wrap_sub),
+            ("MultiFS(auto_close, a member whose close() raises)", failing_member("multi")),
+            ("MountFS(auto_close, a member whose close() raises)", failing_member("mount"))]
 
 
 def run_c18(report):
@@ -567,7 +594,13 @@ def run_c18(report):
                     try:
                         st.remember()
                         before = st.snapshot()
-                        if how == "close":
+                        failing = comp is not None and comp[0] == "failing-close"
+                        if failing:
+                            try:
+                                obj.close()
+                            except OSError:
+                                pass
+                        elif how == "close":
                             obj.close()
                         elif how == "close-twice":
                             obj.close()
@@ -580,13 +613,22 @@ def run_c18(report):
                             with obj:
                                 pass
                         members_closed = st.fs.isclosed()
-                        if comp is not None and members_closed != comp[1]:
+                        if comp is not None and comp[0] in ("mount", "multi") and members_closed != comp[1]:
                             bad.append(("members closed iff auto_close violated",
                                         dict(construction=label, how=how, method="close", verdict=str(members_closed),
                                              changed=False)))
                         args = synth_args(name, getattr(FS, name), variant, rnd)
                         if args is None:
                             continue
+                        if comp is not None and (comp[0] == "mount" or comp == ("failing-close", "mount")):
+                            # address the mounted member (paths outside 'm/' only reach the default filesystem)
+                            try:
+                                params = [q.name for q in inspect.signature(getattr(FS, name)).parameters.values()][1:]
+                                args = [("m/" + a.lstrip("/")) if (i < len(params) and params[i] in
+                                        ("path", "src_path", "dst_path", "dir_path") and isinstance(a, str)) else a
+                                        for i, a in enumerate(args)]
+                            except (TypeError, ValueError):
+                                pass
                         verdict, value = call(obj, name, args)
                         if hasattr(value, "close") and hasattr(value, "read"):
                             try:
